@@ -21,7 +21,7 @@ from fractions import Fraction
 from pathlib import Path
 
 VERIF = Path("/verif")
-REPO = Path("/repo")
+REPO = Path(os.environ.get("VERIF_REPO") or "/repo")   # checks always run against /repo; the override exists for mutant testing in scratch copies
 COQ = VERIF / "coq"
 THEORIES = COQ / "theories"
 PROPS = COQ / "props"
